@@ -158,6 +158,14 @@ def tr_safety(run):
     m = re.search(r"if\s*\(\s*0\s*==\s*strncmp\s*\(\s*confVal\s*,\s*" + STR + r"\s*,\s*(\d+)\s*\)\s*\)\s*\{\s*return\s+confVal\s*\+\s*(\d+)\s*;", rp)
     if m:
         v["s_cfg_guarded"], v["s_cfg_prefix"], v["s_cfg_cmp_n"], v["s_cfg_skip"] = True, c_unescape(m.group(1)), int(m.group(2)), int(m.group(3))
+    elif "snoopy_configfile_syslog_value_remove_prefix" not in cf and fi:
+        # the helper is gone (the lookup strips the prefix): the fields are unused by the model (s_cfg_strips = false)
+        v["s_cfg_guarded"], v["s_cfg_prefix"], v["s_cfg_cmp_n"], v["s_cfg_skip"] = True, fi[1], fi[2], fi[3]
+    cl = func_body(cf, "snoopy_configfile_syslog_value_cleanup") or ""
+    v["s_cfg_strips"] = bool(re.search(r"snoopy_configfile_syslog_value_remove_prefix\s*\(", cl))
+    if not re.search(r"snoopy_util_string_toUpper\s*\(\s*confVal\s*\)", cl):
+        notes.append("translator(safety): syslog_value_cleanup not recognised")
+        v["s_cfg_guarded"] = None
     ob = func_body(cf, "snoopy_configfile_parseValue_output") or ""
     v["s_out_split_strchr"] = bool(re.search(r"colonPtr\s*=\s*strchr\s*\(\s*confVal\s*,\s*':'\s*\)", ob) and re.search(r"\*colonPtr\s*=\s*'\\0'\s*;\s*outputName\s*=\s*confVal\s*;\s*outputArg\s*=\s*colonPtr\s*\+\s*1\s*;", ob)
                                    and re.search(r"confVal\s*=\s*strdup\s*\(\s*confValString\s*\)", ob) and "strtok_r" not in ob)
@@ -260,7 +268,8 @@ def tr_safety(run):
     sr = _eval_many(run, sev, extra_defs=edefs)
     ok_s = (re.search(r"st_buf\s*\[\s*rc\s*\]\s*=\s*'\\0'", fa) and re.search(r"len\s*=\s*right\s*-\s*left\s*-\s*1\s*;", fa)
             and re.search(r"memcpy\s*\(\s*st_comm_buf\s*,\s*left\s*\+\s*1\s*,\s*len\s*\)\s*;\s*st_comm_buf\s*\[\s*len\s*\]\s*=\s*'\\0'", fa)
-            and re.search(r"if\s*\(\s*len\s*<=\s*0\s*\|\|\s*len\s*>=", fa))
+            and re.search(r"if\s*\(\s*(?:len\s*<=\s*0|right\s*<\s*left)\s*\|\|\s*len\s*>=", fa))
+    v["s_st_empty_ok"] = bool(re.search(r"if\s*\(\s*right\s*<\s*left\s*\|\|\s*len\s*>=", fa))
     for k in ("s_st_buf", "s_st_fread_n", "s_st_comm", "s_st_comm_limit", "s_st_size_min", "s_st_path"):
         v[k] = sr.get(k) if ok_s else None
     if sr.get("s_st_path") is not None and sr.get("s_st_path_arr") is not None and sr["s_st_path"] > sr["s_st_path_arr"]:
@@ -341,9 +350,9 @@ def tr_safety(run):
              "s_login_cap", "s_login_with_nul", "s_login_without_nul", "s_login_unknown", "s_dt_cap", "s_dt_size",
              "s_st_buf", "s_st_fread_n", "s_st_comm", "s_st_comm_limit", "s_st_size_min", "s_st_path",
              "s_err_buf", "s_err_guard", "s_ident_buf", "s_path_max", "s_devlog_extra", "s_sock_path_size", "s_sun_path_cap",
-             "s_file_max", "s_file_fread", "s_file_err_max", "s_cg_path", "s_rp_path", "s_rp_val_max", "s_rp_ret_cap"]
+             "s_file_max", "s_file_fread", "s_file_err_max", "s_cg_path", "s_rp_path", "s_rp_val_max", "s_rp_ret_cap", "s_cfg_strips", "s_st_empty_ok"]
     boolk = {"s_append_strict", "s_ds_pre_nul", "s_chain_term", "s_fname_copy_exact", "s_fname_term", "s_bytelen_wide", "s_fac_guarded", "s_lvl_guarded", "s_cfg_guarded",
-             "s_out_split_strchr", "s_ini_use_stack", "s_ini_bom", "s_ini_multiline", "s_ini_inline_comments", "s_ini_strncpy0_term", "s_env_null_guard", "s_err_guard"}
+             "s_out_split_strchr", "s_cfg_strips", "s_st_empty_ok", "s_ini_use_stack", "s_ini_bom", "s_ini_multiline", "s_ini_inline_comments", "s_ini_strncpy0_term", "s_env_null_guard", "s_err_guard"}
     bytek = {"s_log_prefix", "s_cfg_prefix", "s_env_dots", "s_login_unknown"}
     bad = {}
     for k in order:
